@@ -74,7 +74,11 @@ impl ChessMove {
                 Square::make_square(rank, dest_file),
                 None,
             );
-            if MoveGen::new_legal(&board).any(|l| l == m) {
+            // the piece leaving the e-file square must be the king: a rook or queen standing
+            // there may well have a legal move to the c- or g-file, but that is not castling
+            if board.piece_on(m.get_source()) == Some(Piece::King)
+                && MoveGen::new_legal(&board).any(|l| l == m)
+            {
                 return Ok(m);
             } else {
                 return Err(Error::InvalidSanMove);
